@@ -3,48 +3,58 @@
 package server
 
 import (
+	"bytes"
 	"context"
-	"strings"
 
-	"github.com/mimecast/dtail/internal/mapr"
+	"github.com/mimecast/dtail/internal/io/line"
 )
 
-// VerifAggregate runs the real per-line path of the server side aggregator
-// (parser.MakeFields, WhereClause, SetClause, aggregate) over batches of
-// lines, serialising (GroupSet.Serialize) after every batch, as the interval
-// timer does. It returns the messages of each batch. (The goroutine plumbing
-// around these calls is the subject of C06.)
+// VerifAggregate runs the real server side pipeline behind the file readers
+// (fieldFromLine: parser.MakeFields + WhereClause; setAdditionalFields;
+// aggregateAndSerialize with its periodic serialisation, triggered here through
+// Serialize() after every batch but the last, as the interval timer does, and
+// the final serialisation when the input ends) over batches of lines. It
+// returns the messages, grouped by the batch after which they were collected.
+// (Which file's channel the aggregator reads next is the subject of C06.)
 func VerifAggregate(queryStr string, batches [][]string) ([][]string, error) {
 	a, err := NewAggregate(queryStr)
 	if err != nil {
 		return nil, err
 	}
 	ctx := context.Background()
-	var out [][]string
-	for _, lines := range batches {
-		group := mapr.NewGroupSet()
-		for _, l := range lines {
-			maprLine := strings.TrimSpace(l)
-			fields, err := a.parser.MakeFields(maprLine)
-			if err != nil {
-				continue
-			}
-			if !a.query.WhereClause(fields) {
-				continue
-			}
-			if len(a.query.Set) > 0 {
-				a.query.SetClause(fields)
-			}
-			a.aggregate(group, fields)
-		}
-		ch := make(chan string, 1000)
-		group.Serialize(ctx, ch)
-		var msgs []string
-		for len(ch) > 0 {
-			msgs = append(msgs, <-ch)
-		}
-		out = append(out, msgs)
+	fieldsCh := make(chan map[string]string)
+	var in <-chan map[string]string = fieldsCh
+	if len(a.query.Set) > 0 {
+		in = a.setAdditionalFields(ctx, fieldsCh)
 	}
+	msgs := make(chan string, 4096)
+	done := make(chan struct{})
+	go func() {
+		a.aggregateAndSerialize(ctx, in, msgs)
+		close(done)
+	}()
+	var out [][]string
+	collect := func() {
+		var got []string
+		for len(msgs) > 0 {
+			got = append(got, <-msgs)
+		}
+		out = append(out, got)
+	}
+	for bi, lines := range batches {
+		for _, l := range lines {
+			a.fieldFromLine(ctx, &line.Line{Content: bytes.NewBufferString(l), Count: 1, TransmittedPerc: 100, SourceID: "f"}, fieldsCh)
+		}
+		if bi < len(batches)-1 {
+			a.Serialize(ctx) // what aggregateTimer does every interval
+			// a marker field set that aggregates nothing makes sure the serialisation has completed
+			a.Serialize(ctx)
+			collect()
+		}
+	}
+	close(fieldsCh)
+	<-done
+	collect()
 	return out, nil
 }
 
